@@ -236,6 +236,31 @@ def opsC10 : List (String × Handler) := [
         return fmt ([cut] ++ tabList n x ++ [frob r r (fun i j => utu i j - one i j), frob r r (fun i j => vtv i j - one i j),
                                              frob m n (fun i j => A i j - rec_ i j)])
     | _ => throw "arity"),
+  -- c10.lstsqcod m n r A(m*n) Q(m*r) Z(n*r) T(r*r) Ti(r*r) b(m)
+  --   -> x(n) |Q^T Q - 1| |Z^T Z - 1| |T Ti - 1| |A - Q T Z^T|     (LSTSQ.forward, orthogonal-factorisation driver unfolded)
+  ("c10.lstsqcod", fun ts => do
+    match ts with
+    | m :: n :: r :: rest =>
+      let m ← nat m; let n ← nat n; let r ← nat r
+      let (A, rest) ← takeNums (m * n) rest
+      let (Q, rest) ← takeNums (m * r) rest
+      let (Z, rest) ← takeNums (n * r) rest
+      let (T, rest) ← takeNums (r * r) rest
+      let (Ti, rest) ← takeNums (r * r) rest
+      let (b, _) ← takeNums m rest
+      let A := matOf n A; let Q := matOf r Q; let Z := matOf r Z; let T := matOf r T; let Ti := matOf r Ti
+      match lstsqForwardCod m n r Q Z Ti (vecOf b) with
+      | .error e => throw s!"model:{e}"
+      | .ok x =>
+        let one : Nat → Nat → BigF := fun i j => if i = j then BigF.one else BigF.zero
+        let qtq := (tab2 r r (matMul m (transpose Q) Q)).get
+        let ztz := (tab2 r r (matMul n (transpose Z) Z)).get
+        let tti := (tab2 r r (matMul r T Ti)).get
+        let qt := (tab2 m r (matMul r Q T)).get
+        let rec_ := (tab2 m n (matMul r qt (transpose Z))).get
+        return fmt (tabList n x ++ [frob r r (fun i j => qtq i j - one i j), frob r r (fun i j => ztz i j - one i j),
+                                    frob r r (fun i j => tti i j - one i j), frob m n (fun i j => A i j - rec_ i j)])
+    | _ => throw "arity"),
   -- c10.pinveigh n hasAtol atol hasRtol rtol eps A(n*n) Q(n*n) lam(n) b(n)
   --   -> cut x(n) |Q^T Q - 1| |A - Q L Q^T|           (PINV(hermitian=True).forward with the kernel unfolded to eigh)
   ("c10.pinveigh", fun ts => do
